@@ -8,6 +8,7 @@ import (
 	"google.golang.org/protobuf/proto"
 	"runtime"
 	"sort"
+	"strings"
 	"testing"
 	"time"
 
@@ -380,6 +381,93 @@ func TestC14(t *testing.T) {
 			gen.NonTrivial("c14many", c.n, c.size)
 		}
 		gen.Class("many-wrongly-sized-entries")
+	})
+	// every ordered pair of expectations, the first one met and the second one missed (nothing else stated): the quote
+	// misses the policy, whichever two they are and in whichever order an implementation looks at them
+	gen.Direct(t, "one-expectation-met-one-missed", func(t *testing.T) {
+		type setter struct {
+			name string
+			set  func(p *gen.PolicyFields, q *gen.RefQuote, met bool)
+		}
+		flipb := func(b []byte, met bool) []byte {
+			c := append([]byte{}, b...)
+			if !met {
+				c[len(c)/2] ^= 0x04
+			}
+			return c
+		}
+		setters := []setter{
+			{"qe_vendor_id", func(p *gen.PolicyFields, q *gen.RefQuote, met bool) { p.QeVendorID = flipb(q.VendorID[:], met) }},
+			{"mr_seam", func(p *gen.PolicyFields, q *gen.RefQuote, met bool) { p.MrSeam = flipb(q.MrSeam[:], met) }},
+			{"td_attributes", func(p *gen.PolicyFields, q *gen.RefQuote, met bool) { p.TdAttributes = flipb(q.TdAttr[:], met) }},
+			{"xfam", func(p *gen.PolicyFields, q *gen.RefQuote, met bool) { p.Xfam = flipb(q.Xfam[:], met) }},
+			{"mr_td", func(p *gen.PolicyFields, q *gen.RefQuote, met bool) { p.MrTd = flipb(q.MrTd[:], met) }},
+			{"mr_config_id", func(p *gen.PolicyFields, q *gen.RefQuote, met bool) { p.MrConfigID = flipb(q.MrConfigID[:], met) }},
+			{"mr_owner", func(p *gen.PolicyFields, q *gen.RefQuote, met bool) { p.MrOwner = flipb(q.MrOwner[:], met) }},
+			{"mr_owner_config", func(p *gen.PolicyFields, q *gen.RefQuote, met bool) { p.MrOwnerConfig = flipb(q.MrOwnerConfig[:], met) }},
+			{"report_data", func(p *gen.PolicyFields, q *gen.RefQuote, met bool) { p.ReportData = flipb(q.ReportData[:], met) }},
+			{"rtmrs", func(p *gen.PolicyFields, q *gen.RefQuote, met bool) {
+				p.Rtmrs = [][]byte{append([]byte{}, q.Rtmr[0][:]...), append([]byte{}, q.Rtmr[1][:]...), flipb(q.Rtmr[2][:], met), append([]byte{}, q.Rtmr[3][:]...)}
+			}},
+			{"rtmrs-one-register", func(p *gen.PolicyFields, q *gen.RefQuote, met bool) {
+				p.Rtmrs = [][]byte{nil, nil, nil, flipb(q.Rtmr[3][:], met)}
+			}},
+			{"any_mr_td", func(p *gen.PolicyFields, q *gen.RefQuote, met bool) {
+				other := flipb(q.MrTd[:], false)
+				other[0] ^= 0x80
+				p.AnyMrTd = [][]byte{other, flipb(q.MrTd[:], met)}
+			}},
+			{"minimum_qe_svn", func(p *gen.PolicyFields, q *gen.RefQuote, met bool) {
+				v := uint32(binary.LittleEndian.Uint16(q.Word10[:]))
+				if !met {
+					v++
+				}
+				p.MinQeSvn = v
+			}},
+			{"minimum_pce_svn", func(p *gen.PolicyFields, q *gen.RefQuote, met bool) {
+				v := uint32(binary.LittleEndian.Uint16(q.Word8[:]))
+				if !met {
+					v++
+				}
+				p.MinPceSvn = v
+			}},
+			{"minimum_tee_tcb_svn", func(p *gen.PolicyFields, q *gen.RefQuote, met bool) {
+				m := append([]byte{}, q.TeeTcbSvn[:]...)
+				if !met {
+					m[7]++
+				}
+				p.MinTeeTcbSvn = m
+			}},
+		}
+		i := 0
+		for _, a := range setters {
+			for _, b := range setters {
+				if a.name == b.name || (strings.HasPrefix(a.name, "rtmrs") && strings.HasPrefix(b.name, "rtmrs")) || (a.name == "mr_td" && b.name == "any_mr_td") || (a.name == "any_mr_td" && b.name == "mr_td") {
+					continue
+				}
+				i++
+				if !gen.ShardOwns(i) {
+					continue
+				}
+				s := gen.NewStream(gen.Seed()+uint64(i), "c14pair")
+				q := gen.RandomRefQuote(s, 8, 16, 0)
+				binary.LittleEndian.PutUint64(q.Xfam[:], gen.XfamFixed1)
+				binary.LittleEndian.PutUint64(q.TdAttr[:], 0)
+				binary.LittleEndian.PutUint16(q.Word8[:], uint16(1+s.Intn(60000)))
+				binary.LittleEndian.PutUint16(q.Word10[:], uint16(1+s.Intn(60000)))
+				q.TeeTcbSvn[7] = byte(s.Intn(200))
+				pf := &gen.PolicyFields{}
+				a.set(pf, q, true)
+				b.set(pf, q, false)
+				gen.NonTrivial("c14pair", a.name, b.name)
+				if key, oracle, detail := c14Oracle(q, pf, false, false, false); key != "" {
+					gen.Fail(t, gen.Violation{Key: key + ":pair", Oracle: oracle, Detail: fmt.Sprintf("%s met, %s missed, nothing else stated: %s", a.name, b.name, detail),
+						Replay: map[string]any{"kind": "policy", "raw_hex": hex.EncodeToString(q.Encode()), "policy": fieldsJSON(pf), "no_header": false, "no_body": false, "nil_policy": false}})
+					return
+				}
+			}
+		}
+		gen.Class("one-expectation-met-one-missed")
 	})
 	gen.Direct(t, "long-allow-lists-and-extreme-values", func(t *testing.T) {
 		i := 0
